@@ -360,7 +360,7 @@ def opaque_pairs(ctx: Ctx) -> None:
     for T, ps in byT.items():
         dtype = torch.float64
         cut = torch.tensor([r["cut"] for r in ps])
-        models = ["bs", "ww", "naked", "mlp", "mlp_prev", "user"]
+        models = ["bs", "ww", "naked", "mlp", "mlp_prev", "user", "shared_extractor"]
         sa = list(_opaque_setups(ps, "mA", dtype))
         sb = list(_opaque_setups(ps, "mB", dtype))
         for (label, dA), (_, dB) in zip(sa, sb):
@@ -376,12 +376,25 @@ def opaque_pairs(ctx: Ctx) -> None:
                     model = MultiLayerPerceptron(n_layers=2, n_units=8).to(dtype); inputs = ["log_moneyness", "time_to_maturity", "volatility", "max_moneyness"]
                 elif mname == "mlp_prev":
                     model = MultiLayerPerceptron(n_layers=2, n_units=8).to(dtype); inputs = ["moneyness", "variance", "prev_hedge"]
+                elif mname == "shared_extractor":
+                    # two hedgers built on the SAME feature objects (a trainable extractor that reads prev_hedge): the one
+                    # under test is evaluated right after the other one on the same derivative
+                    from pfhedge.features import ModuleOutput
+                    ext = torch.nn.Sequential(torch.nn.Linear(2, 4), torch.nn.Tanh(), torch.nn.Linear(4, 1)).to(dtype)
+                    inputs = [ModuleOutput(ext, ["log_moneyness", "prev_hedge"]), "time_to_maturity"]
+                    other = Hedger(torch.nn.Sequential(torch.nn.Linear(2, 1), torch.nn.Tanh()).to(dtype), inputs)
+                    model = torch.nn.Sequential(torch.nn.Linear(2, 8), torch.nn.Tanh(), torch.nn.Linear(8, 1)).to(dtype)
                 else:
                     model = UserNet(); inputs = ["moneyness", "max_log_moneyness", "volatility"]
                 hedger = Hedger(model, inputs)
                 try:
-                    a = hedger.compute_hedge(dA)
-                    b = hedger.compute_hedge(dB)
+                    with torch.no_grad():
+                        if mname == "shared_extractor":
+                            other.compute_hedge(dA)
+                        a = hedger.compute_hedge(dA)
+                        if mname == "shared_extractor":
+                            other.compute_hedge(dB)
+                        b = hedger.compute_hedge(dB)
                 except Exception as e:
                     ctx.violation(f"opaque:{mname}:{label}:raises", f"{mname} hedger raised {type(e).__name__}", {"error": repr(e)[:300]})
                     continue
